@@ -730,7 +730,9 @@ func NewPacket(data []byte, firstLayerDecoder Decoder, options DecodeOptions) (p
 		)
 		if options.Pool && len(data) <= maximumMTU {
 			poolMemory = poolPackedPool.Get().(*[]byte)
-			dataCopy = (*poolMemory)[:len(data)]
+			// The capacity is capped at the length: a decoder that slices beyond
+			// the packet must fail, not read what earlier packets left in the pool.
+			dataCopy = (*poolMemory)[:len(data):len(data)]
 			copy(dataCopy, data)
 			data = dataCopy
 			defer func() {
